@@ -104,6 +104,8 @@ DOMAINS = [
     ("container", ("value", ("j", [0, 1, None, False, lit(""), lit("t"), 7, 8]))),
     ("predicate", ("fnvalue", 101)),
     ("evaluatable", ("option", K(ALLOWED), None, None)),
+    # an evaluatable domain with a default of its own: explain() lists nothing for it, yet it depends on the options
+    ("evaluatable-default", ("option", K(ALLOWED), ("value", ("j", [0, 1, None, 7, 8, lit("t")])), None)),
 ]
 FT = {100: ("const", ("j", 7)), 101: ("in", [("j", v) for v in (0, 1, None, lit(""), lit("t"), 7, 8)]), 102: ("tag",)}
 ENV = {1: dict(fid=102, kwargs=[("option", K(B), ("value", ("j", 3)), None)])}
@@ -176,7 +178,7 @@ def check_option(scn_base, key, dflt, dom, o, violations, stats):
     if bad:
         violations.append(dict(desc=f"Option.evaluate: {bad}", got=res, expr=repr(e), options=repr(o), finding=zone,
                                scenario_repr=cp.dump_scn(scn)))
-    return scn
+    return scn, res
 
 
 def exhaustive_options(ctx):
@@ -194,18 +196,32 @@ def exhaustive_options(ctx):
         for v in vals:
             for extra in ({}, {B: 5}):
                 ex = dict(extra)
-                if domn == "evaluatable":
-                    ex[ALLOWED] = [0, 1, None, 7, 8, lit("t")]
+                if domn == "evaluatable" or (domn == "evaluatable-default" and len(dicts) % 3 == 0):
+                    ex[ALLOWED] = [0, 1, None, 7, 8, lit("t")] if len(dicts) % 2 == 0 else [1, 8]
                 dicts.append(place(key, v, ex))
         dicts.append({})
         dicts.append({B: 5, ALLOWED: [7, 8, 3]})
         if len(key) > 1 and key[0] != ("n", LST):
             dicts.append({key[0][1]: 5})                       # scalar parent (finding D6 zone)
             dicts.append({key[0][1]: {}})
+        fresh = []
         for o in dicts:
             n += 1
-            check_option(base, key, dflt, dom, o, violations, stats)
+            fresh.append(check_option(base, key, dflt, dom, o, violations, stats)[1])
         e = ("option", key, dflt, dom)
+        # ONE long-lived Option object evaluated under all these dictionaries in (shuffled) sequence must answer
+        # each time as a fresh object does (no state may be kept on the object between evaluations)
+        order = list(range(len(dicts)))
+        rng.shuffle(order)
+        hist = dict(base, exprs=[e], ops=[("evaluate", 0, True, False, dicts[i]) for i in order])
+        for pos, (i, line) in enumerate(zip(order, core.run_impl(hist))):
+            n += 1
+            if cp.split(line)[0] != fresh[i]:
+                violations.append(dict(desc="Option.evaluate: one long-lived Option object answers differently from a fresh one after "
+                                            "having been evaluated under other dictionaries", position=pos, got=cp.split(line)[0],
+                                       fresh=fresh[i], expr=repr(e), options=repr(dicts[i]), finding=None,
+                                       scenario_repr=cp.dump_scn(dict(hist, ops=hist["ops"][:pos + 1]))))
+                break
         sample = dicts if not ctx.quick else rng.sample(dicts, min(10, len(dicts)))
         ops = [(m, 0, False, False, o) for o in sample for m in ("evaluate", "validate", "keys", "explain")]
         corr.append(dict(base, exprs=[e], ops=ops))
@@ -227,6 +243,11 @@ def namespace_checks(violations):
             D = Option("D", default="{NS.C}-x")
             E = Option.auto(default=2, domain=[2, 4]) >> (lambda v: ("t", v))
             F = Option("F")
+            R: int = 0
+            V: bool = False
+            P: str = ""
+            N0: object = None
+            TG: list = []
 
             class SUB:
                 G = Option("G", default=1, domain=[1, 2])
@@ -245,6 +266,11 @@ def namespace_checks(violations):
         (NS.D, Option("NS.D", default="{NS.C}-x"), "NS.D"),
         (NS.E, Option("NS.E", default=2, domain=[2, 4]) >> (lambda v: ("t", v)), "NS.E"),
         (NS.F, Option("NS.F"), "NS.F"),
+        (NS.R, Option("NS.R", default=0), "NS.R"),
+        (NS.V, Option("NS.V", default=False), "NS.V"),
+        (NS.P, Option("NS.P", default=""), "NS.P"),
+        (NS.N0, Option("NS.N0", default=None), "NS.N0"),
+        (NS.TG, Option("NS.TG", default=[]), "NS.TG"),
         (NS.SUB.G, Option("NS.SUB.G", default=1, domain=[1, 2]), "NS.SUB.G"),
         (NS.SUB.H, Option("NS.SUB.H"), "NS.SUB.H"),
         (NS.SUB.I, Option("NS.SUB.I", default="lit"), "NS.SUB.I"),
